@@ -82,7 +82,8 @@ def anchor_modules(E: Engine, pid: str) -> set:
     return {m.name for m in E.P.modules.values() if m.relpath in files}
 
 
-ZERO_LEGAL_LIMITS = {"bottom_detuning", "total_bottom_detuning", "fixed_retarget_t", "min_retarget_interval", "max_abs_detuning", "max_amp"}
+# (`tf`: the end of an EOM block, `int | None` -- None means "still open", 0 is a block closed at the start of the channel)
+ZERO_LEGAL_LIMITS = {"bottom_detuning", "total_bottom_detuning", "fixed_retarget_t", "min_retarget_interval", "max_abs_detuning", "max_amp", "tf"}
 ZERO_TRUTHY_ALLOWED = {
     "_Schedule.add_target|fixed_retarget_t": "`if fixed_retarget_t: delta = max(delta, fixed_retarget_t)`: for 0 the skipped statement is max(delta, 0) == delta (delta >= 0), the same result",
     "Channel.__str__|max_abs_detuning": "text only: the unit suffix of the printed limit",
